@@ -61,13 +61,14 @@ def _bg(bg):
     return [s if isinstance(s, dict) else step(s) for s in bg]
 
 
-def cfg(expr="true", stop=False, dry=False, show_skipped=True, cont=False, capture=(True, True, True), wip_mode=False, retry=False,
+def cfg(expr="true", stop=False, dry=False, show_skipped=True, cont=False, capture=(True, True, True), wip=False, retry=False,
         observe=False, async_steps=False, chatty=False, loglevel="", logfilter="", logclear=False, tamper=False):
     """loglevel: --logging-level (DEBUG / INFO / WARNING / ERROR / CRITICAL; "" = not given, behave's default INFO);
     logfilter: --logging-filter (comma separated logger names, a leading '-' excludes);
+    wip: --wip (only @wip scenarios, --stop, no capture of stdout and logging);
     logclear: --logging-clear-handlers, the user's own root handler is then installed in before_all;
     tamper: a failing / raising step body first replaces sys.stdout / sys.stderr (if captured) by a forwarding wrapper"""
-    return {"logclear": bool(logclear), "tamper": bool(tamper), "loglevel": loglevel, "logfilter": logfilter, "observe": bool(observe), "async_steps": bool(async_steps), "chatty": bool(chatty), "expr": expr, "stop": stop, "dry": dry, "show_skipped": show_skipped, "cont": cont, "retry": bool(retry and not dry),
+    return {"wip": bool(wip), "logclear": bool(logclear), "tamper": bool(tamper), "loglevel": loglevel, "logfilter": logfilter, "observe": bool(observe), "async_steps": bool(async_steps), "chatty": bool(chatty), "expr": expr, "stop": stop, "dry": dry, "show_skipped": show_skipped, "cont": cont, "retry": bool(retry and not dry),
             "cap_out": capture[0], "cap_err": capture[1], "cap_log": capture[2]}
 
 
